@@ -39,6 +39,11 @@ WSPECS = [
     {'pshape': [], 'expand': [3], 'vaxes': [0, 0], 'default': '-inf'},
     {'pshape': [2], 'vaxes': [{'before': 1, 'term': [0, 0], 'after': 1}]},
     {'pshape': [2, 2], 'vaxes': [{'before': 0, 'term': [0, 1], 'after': 1}, 1]},
+    # slices along the first axis are themselves patterned (unbacked positions inside every slice): dense first axis + diagonal tail,
+    # dense first axis + sum-injected tail, first axis shared with the tail
+    {'pshape': [2, 3], 'vaxes': [0, 1, 1], 'default': 1.0},
+    {'pshape': [2, 2], 'vaxes': [0, {'before': 1, 'term': 1, 'after': 0}], 'default': '-inf'},
+    {'pshape': [2, 2], 'vaxes': [1, 0, {'before': 0, 'term': 1, 'after': 1}], 'default': 2.5},
 ]
 
 
